@@ -78,6 +78,11 @@ def check_tree(ctx, live, fam, cg, vals, route):
         ctx.violation(case(sig="pack-raises", desc="pack() raised %s" % (str(p[1])[:300],)))
         return
     out = p[1]
+    if decl.has_optdep_dynamic(fam):
+        # a selector-chosen Int without explicit byte order: only the round trip is asserted, not which byte order is used
+        ctx.count("encoding_not_compared_option_dependent_dynamic_field")
+        m = decl.model_parse(fam, out, 0)
+        want = out
     if out != want:
         ctx.violation(case(sig="bytes-differ", desc="pack()=%r, reference encoding=%r" % (out, want)))
         return
@@ -92,9 +97,9 @@ def check_tree(ctx, live, fam, cg, vals, route):
         e2 = live.end_offset(out)
     except Exception as e:
         e2 = repr(e)
-    if e2 != m[2]:
+    if m[0] == "ok" and e2 != m[2]:
         ctx.violation(case(sig="end-offset", desc="re-parse ended at %r, reference %r (len %d)" % (e2, m[2], len(out)), out=out))
-    if m[3].hi < len(out):
+    if m[0] == "ok" and m[3].hi < len(out):
         ctx.count("reference_did_not_traverse_all")
     try:
         ok = pkt.assert_consistency()
